@@ -28,6 +28,10 @@ FEATS = [
          p_done_need=0.2, p_inactive=0.15, order=True, p_period=0.15, p_stop_bid_mid=0.2),
 ]
 
+# bids that carry a period (`bid start x at 0`, also zero and equal to the tick) for framers that have a period of their own
+FEAT_PERIODS = dict(nframers=(2, 4), p_let=0.2, p_pokes=0.3, p_bids=0.6, p_inactive=0.4, order=True, p_period=0.6, p_bid_period=0.6,
+                    p_stop_bid_mid=0.3)
+
 TINY_CONDS = [None, P.cmp(".c0", "==", 1), P.cmp("recurred", ">=", 2)]
 TINY_NEST = [(None, None, None), (None, "f0", None), (None, "f0", "f0"), (None, "f0", "f1")]
 
@@ -131,7 +135,13 @@ def worker(ctx, job):
     else:
         for seed, fi in job["items"]:
             rng = random.Random(seed)
-            prog = gen.gen_program(rng, gen.pickfeat(FEATS, fi))
+            if fi == 100:
+                prog = gen.gen_program(rng, gen.feat(**FEAT_PERIODS))
+                ctx.hit("programs_with_periods_and_period_bids")
+                ctx.hit("bids_with_a_period", sum(1 for h in prog["houses"] for fr in h["framers"] for f in fr["frames"]
+                                                 for st in f["stmts"] if st["v"] == "bid" and st.get("at") is not None))
+            else:
+                prog = gen.gen_program(rng, gen.pickfeat(FEATS, fi))
             compare_one(ctx, prog, gen.WATCH, "random/%d" % fi)
             ctx.hit("random_programs")
             # the same program with auxiliary framers turned into clones of moot framers: same reference run
@@ -157,6 +167,9 @@ def run(ctx):
     opts = c20.need_opts()
     twins = [c20.random_case(ctx.rng, opts, twin=True) for _ in range(ctx.pick(240, 8000))]
     jobs += [{"kind": "twin", "items": twins[i::n]} for i in range(n)]
+    pitems = [(ctx.rng.randrange(1 << 30), 100) for i in range(ctx.pick(160, 12000))]
+    jobs += [{"kind": "rand", "items": pitems[i::n]} for i in range(n)]
+    ctx.floor("bids_with_a_period", 40)
     ctx.floor("twin_clone_histories", 50)
     ctx.shard(jobs, timeout=ctx.pick(300, 1500))
     ctx.floor("distinct_nontrivial", 300)
